@@ -620,7 +620,68 @@ def run_gss():
             if not ok:
                 _viol(out, "GSSNode.for_token", key, {"same_node": r is n, "layout_content_ahead": r.layout_content_ahead,
                                                      "links": len(r.parents)})
-    out["covers"] = ["GSSNode.__init__", "GSSNode.for_token"]
+    # ---- create_link / Parent.merge: a second path to the same root adds its alternatives to the existing link
+    from parglare.glr import Parent
+    for n_old, n_new, same_root in itertools.product((1, 2), (1, 2), (False, True)):
+        out["evaluations"] += 1
+        out["nontrivial"] += 1
+        head = GSSNode("f", "input", state, 3, 5, {}, ambiguity=1)
+        r1 = GSSNode("f", "input", NS(state_id=1), 1, 4, {}, ambiguity=1)
+        r2 = r1 if same_root else GSSNode("f", "input", NS(state_id=2), 1, 4, {}, ambiguity=1)
+        alts1 = [NS(context=None, tag=f"o{i}") for i in range(n_old)]
+        alts2 = [NS(context=None, tag=f"n{i}") for i in range(n_new)]
+        p1 = Parent(None, r1, 1, 3, possibilities=list(alts1))
+        p2 = Parent(None, r2, 1, 3, possibilities=list(alts2))
+        key = {"alternatives_on_first_link": n_old, "on_second": n_new, "same_root": same_root}
+        c1 = head.create_link(p1)
+        c2 = head.create_link(p2)
+        ok = c1 is True and c2 is (not same_root) and p1.head is head and p2.head is head
+        if same_root:
+            ok = ok and list(head.parents) == [r1.id] and head.parents[r1.id] is p1 and \
+                [a.tag for a in p1.possibilities] == [a.tag for a in alts1 + alts2] and p1._solutions is None
+        else:
+            ok = ok and head.parents.get(r1.id) is p1 and head.parents.get(r2.id) is p2 and \
+                p1.possibilities == alts1 and p2.possibilities == alts2
+        if not ok:
+            _viol(out, "GSSNode.create_link", key, {"created": [c1, c2], "links": len(head.parents),
+                                                    "alternatives": [a.tag for a in p1.possibilities]})
+    # ---- Parent.__init__ / clone_with_root: spans (0 is a position), adopted / copied alternatives, contexts
+    for start, end in ((0, None), (0, 0), (2, 0), (1, 3)):
+        for n_alts, tok in ((0, None), (0, t1), (2, None), (2, t1)):
+            out["evaluations"] += 1
+            alts = [NS(context=None) for _ in range(n_alts)]
+            given = list(alts) if n_alts else None
+            root = GSSNode("f", "input", NS(state_id=1), 1, 4, {}, ambiguity=1)
+            key = {"start": start, "end": end, "alternatives": n_alts, "token": tok is not None}
+            try:
+                p = Parent(None, root, start, end, possibilities=given, token=tok)
+            except Exception as e:  # noqa
+                _viol(out, "Parent.__init__", key, f"raised {type(e).__name__}: {str(e)[:80]}")
+                continue
+            ok = (p.root, p.head, p.start_position, p.end_position, p.token, p._solutions) == \
+                (root, None, start, start if end is None else end, tok, None)
+            if n_alts:
+                ok = ok and p.possibilities is given and all(a.context is p for a in alts)
+            else:
+                ok = ok and len(p.possibilities) == (1 if tok is not None else 0)
+            if not ok:
+                _viol(out, "Parent.__init__", key, {"end_position": p.end_position, "alternatives": len(p.possibilities)})
+                continue
+            if not p.possibilities:
+                continue
+            root2 = GSSNode("f", "input", NS(state_id=2), 1, 4, {}, ambiguity=1)
+            before = list(p.possibilities)
+            c = p.clone_with_root(root2)
+            ok = c is not p and c.root is root2 and (c.head, c.start_position, c.end_position, c.token) == \
+                (p.head, p.start_position, p.end_position, p.token)
+            ok = ok and c.possibilities == before and c.possibilities is not p.possibilities and p.possibilities == before
+            c.possibilities.append("late")
+            ok = ok and "late" not in p.possibilities
+            if not ok:
+                _viol(out, "Parent.clone_with_root", key, {"shares_list": c.possibilities is p.possibilities})
+    out["aliases"] = {"Parent.merge": ["GSSNode.create_link"]}
+    out["covers"] = ["GSSNode.__init__", "GSSNode.for_token", "GSSNode.create_link", "Parent.merge", "Parent.__init__",
+                     "Parent.clone_with_root"]
     out["rule"] = ("companion of contracts/gss.py: real GSSNode x look-ahead {none, t1} x layout before/after {empty, not} x "
                    "{0, 2} parent links x for_token {t1, t2}")
     return out
